@@ -2,9 +2,12 @@
 
 `canon(obj)` walks the *entire* mutable state of an object and returns a
 nested tuple of plain hashable values; `fp(obj)` is its 16-byte digest.
-Nothing is dropped, so two objects with equal fingerprints are
-indistinguishable to Python code: merging states on `fp` can only be too fine,
-never too coarse (DESIGN 3.2).
+Nothing is dropped; `fp_merge` additionally records which mutable sub-objects
+are *the same object* (aliasing), because two states with equal values but
+different sharing have different futures (an in-place update of one attribute
+silently rewrites the other). State merging uses `fp_merge`, so it can only be
+too fine, never too coarse (DESIGN 3.2); value comparisons between states that
+were reached on different paths use `fp`.
 """
 import collections
 import hashlib
@@ -15,7 +18,8 @@ import numpy as np
 
 # MODE['rng']: 'merge' (live decided values relative to the position; for state merging) or 'pos' (stream position only; purity oracle)
 # MODE['fdigits']: None = bit-exact floats; an int = floats rounded to that many significant digits (chunking comparisons)
-MODE = {"rng": "merge", "fdigits": None}
+# MODE['alias']: record object identity of mutable sub-objects reached twice (state merging)
+MODE = {"rng": "merge", "fdigits": None, "alias": False}
 
 
 def _rf(x):
@@ -41,6 +45,9 @@ def canon(obj, _memo=None, _depth=0, skip=()):
     names that are left out at the *top level only*."""
     if _memo is None:
         _memo = {}
+        if MODE["alias"]:
+            _memo["alias"] = {}
+            _memo["keep"] = []  # keeps registered objects alive, so that an id cannot be reused during the walk
     if obj is None or isinstance(obj, (bool, int, str, bytes)):
         return obj
     if isinstance(obj, float):
@@ -51,6 +58,15 @@ def canon(obj, _memo=None, _depth=0, skip=()):
         if obj.dtype.kind == "f":
             return ("f", _rf(float(obj)))
         return ("np", str(obj.dtype), repr(obj.item()) if obj.dtype != object else canon(obj.item()))
+    al = _memo.get("alias")
+    if al is not None and (isinstance(obj, (np.ndarray, list, dict, set, collections.deque, np.random.RandomState))
+                           or (getattr(obj, "__dict__", None) is not None and not isinstance(
+                               obj, (type, types.FunctionType, types.BuiltinFunctionType, types.MethodType, types.ModuleType)))):
+        if id(obj) in al and id(obj) not in _memo:
+            return ("alias", al[id(obj)])
+        if id(obj) not in al:
+            al[id(obj)] = len(al)
+            _memo["keep"].append(obj)
     if isinstance(obj, np.ndarray):
         return _arr(obj)
     if isinstance(obj, np.random.RandomState) and hasattr(obj, "canon_state"):
@@ -129,6 +145,16 @@ def digest(c):
 
 def fp(obj, skip=()):
     return digest(canon(obj, skip=skip))
+
+
+def fp_merge(obj, skip=()):
+    """fingerprint for state merging: values plus the sharing structure of mutable sub-objects"""
+    old = MODE["alias"]
+    MODE["alias"] = True
+    try:
+        return digest(canon(obj, skip=skip))
+    finally:
+        MODE["alias"] = old
 
 
 def attr_fps(obj):
